@@ -22,7 +22,7 @@ func init() {
 		Explanation: "C08.tab: unitToValues holds B=1, kB..EB = 1000^k, KiB..EiB = 1024^k (exact big-integer comparison of the folded constants); zeroUnits keys = unitToValues keys ∪ {\"\", ZB, YB, ZiB, YiB}. " +
 			"C08.ovf: in newSize the success return carries the low word of bits.Mul64(uint64(value), multiplier) and is dominated by a test of the high word against 0 whose non-zero edge returns an error; the multiplication and the unit-less return are dominated by the sign test and the round-trip test N(uint64(value)) != value; unknown unit → InvalidUnitError; zero path consults zeroUnits. " +
 			"C08.text: digits go through strconv.ParseUint(·,10,64) with the error returned; RuleDisableUnit gates the unit path; prepareNumber's character classes are the documented ones. " +
-			"C08.trim: whitespace around the whole is removed without bound (a TrimSuffix/TrimPrefix with an all-space constant removes at most one). " +
+			"C08.object: in the JSON object form newOrError receives only nil or the result of decodeValue / decodeUnit and hands exactly (*value, *unit) to newSize; decodeValue is strconv.ParseUint(token.(json.Number).String(), 10, 64), decodeUnit the string token unchanged — no rule bit can substitute the unit. C08.trim: whitespace around the whole is removed without bound (a TrimSuffix/TrimPrefix with an all-space constant removes at most one). " +
 			"C08.ovf (as built): newSize is extracted as a decision table over (sign of value, integrality round trip, unit empty / in zeroUnits / in unitToValues, high word of bits.Mul64) and compared with the documented outcomes by three-valued logic; C08.text likewise for the text path (digits present, ParseUint error, unit present, RuleDisableUnit, newSize error); C08.bytes: Bytes[N] per reflect.Kind succeeds exactly on `s <= Max(kind)` for the ten integer kinds and exactly on the conversion round trip for the float kinds. " +
 			"C08.max: internal.Max/Min/SmallestNonzero switch tables pair each reflect.Kind with the boxed type and math constant of that kind (re-checked under GOARCH=386 in the thorough tier); Bytes uses Max for the ten integer kinds and the round-trip test for the float kinds.",
 		NotDecided:  []string{"exactness of float↔uint64 conversions at the 2^53/2^64 boundaries (platform-defined): the rule decides that the verdict is the round-trip test, not what the hardware conversion yields"},
